@@ -195,3 +195,22 @@ package swamp
 //@   ensures[magic] len(out) == len(body) + 2 && out[0] == 199 && out[1] == 0
 //@   ensures[body] forall i in 0..len(body): out[2+i] == body[i]
 //@   ensures[fresh] fresh(out)
+
+// ---------------------------------------------------------------------------------------
+// deleteHandler (property C19): the DELETED event carries a snapshot of the record taken BEFORE
+// the record is changed in any way (marked for deletion, dropped from the indexes), it is taken
+// exactly once, under the record's guard, and exactly one DELETED event is sent per removed record.
+//@ func (*swamp).notifyBucketsDelete(s, key)
+//@   opaque
+//@ func (*swamp).sendDeletedEventToClient(s, d)
+//@   opaque
+//@ trusted func (github.com/hydraide/hydraide/app/core/hydra/swamp/treasure.Treasure).BodySetForDeletion(t, guardID, by, shadow)
+//@ func (*swamp).deleteHandler(s, key, shadowDelete) (deleted)
+//@   property C19
+//@   modifies *
+//@   before Treasure.BodySetForDeletion [event_snapshot_taken_before_the_record_changes] calls("Treasure.Clone") == old(calls("Treasure.Clone")) + 1
+//@   before Beacon.Delete [event_snapshot_taken_before_the_record_is_unindexed] calls("Treasure.Clone") == old(calls("Treasure.Clone")) + 1
+//@   before swamp.sendDeletedEventToClient [event_carries_the_snapshot] calls("Treasure.Clone") == old(calls("Treasure.Clone")) + 1 && arg1 == lastret("Treasure.Clone")
+//@   before Treasure.Clone [snapshot_taken_under_the_guard] calls("Treasure.StartTreasureGuard") == old(calls("Treasure.StartTreasureGuard")) + 1 && arg1 == lastret("Treasure.StartTreasureGuard") && calls("Treasure.ReleaseTreasureGuard") == old(calls("Treasure.ReleaseTreasureGuard"))
+//@   ensures[one_deleted_event_per_removed_record] !isnil(deleted) ==> calls("swamp.sendDeletedEventToClient") == old(calls("swamp.sendDeletedEventToClient")) + 1
+//@   ensures[guard_released] calls("Treasure.ReleaseTreasureGuard") - old(calls("Treasure.ReleaseTreasureGuard")) == calls("Treasure.StartTreasureGuard") - old(calls("Treasure.StartTreasureGuard"))
